@@ -144,9 +144,22 @@ def _listify(ctx):
             n3 += len(obs3)
     finally:
         P.Prims.register_defaults = orig
+    from ..contracts import getexpected as GE
+
+    def reg4(self):
+        orig(self)
+        GE.register_models(self)
+
+    P.Prims.register_defaults = reg4
+    try:
+        c4, callees4 = GE.get_expected_groups_contract()
+        ex4, obs4 = add_to_ctx(ctx, c4, callees4)
+    finally:
+        P.Prims.register_defaults = orig
+    n3 += len(obs4)
     from ..pyvc import conformance
 
-    conformance.add_to_ctx(ctx, ["_unique"])
+    conformance.add_to_ctx(ctx, ["_unique", "pandas.unique"])
     return (f" listify_groups: {len(obs)} obligations (the labels a block found are handed on as NumPy scalars of the labels' own dtype, one per label, in order); _find_unique_groups: {len(obs2)} obligations "
-            f"(the labels of a combine step are exactly the non-missing labels its blocks found, each once, ascending, or the placeholder NaN); _extract_unknown_groups: {n3} obligations "
-            "(the lazy labels array is one task reading 'groups' of the first block of the reduced result, one chunk of unknown size, announced with the labels' dtype).")
+            f"(the labels of a combine step are exactly the non-missing labels its blocks found, each once, ascending, or the placeholder NaN); _extract_unknown_groups and _get_expected_groups: {n3} obligations "
+            "(the lazy labels array is one task reading 'groups' of the first block of the reduced result, one chunk of unknown size, announced with the labels' dtype; an in-memory grouper's groups are its distinct non-missing labels, a dask grouper is refused before anything is evaluated).")
